@@ -177,3 +177,100 @@ func (e *explorer) explore(prefix, expN []int, devs int) {
 		}
 	}
 }
+
+// ExploreAll is the unbounded search: every alternative at every choice point, pruned by happens-before state
+// keys (mcrt.Config.SeenState): an execution that reaches a state seen before ends there, because everything
+// reachable from that state is explored from its first visit. MaxTicks bounds the early environment ticks (time
+// is otherwise an unbounded source of new states). The result is exhaustive over all interleavings of the
+// program's visible operations (up to 64-bit hash collisions of the state keys) unless a cap is hit.
+type AllStats struct {
+	Stats
+	StatesSeen int
+	Pruned     int
+}
+
+func ExploreAll(exec Exec, opt Options, maxTicks int) *AllStats {
+	st := &AllStats{Stats: Stats{Distinct: map[string]int{}, ByDev: make([]int, 1)}}
+	seen := map[uint64]struct{}{}
+	var rec func(prefix, expN []int)
+	stop := false
+	rec = func(prefix, expN []int) {
+		if stop {
+			return
+		}
+		if opt.MaxExecs > 0 && st.Execs >= opt.MaxExecs {
+			st.Capped, st.CapReason, stop = true, "max executions", true
+			return
+		}
+		if !opt.Deadline.IsZero() && st.Execs%64 == 0 && time.Now().After(opt.Deadline) {
+			st.Capped, st.CapReason, stop = true, "deadline", true
+			return
+		}
+		rc := &replayChooser{prefix: prefix, expN: expN}
+		cfg := opt.Cfg
+		cfg.Strategy = opt.Strategy
+		cfg.MaxTicks = maxTicks
+		cfg.Replaying = func() bool { return rc.pos < len(rc.prefix) }
+		cfg.SeenState = func(k uint64) bool {
+			if _, ok := seen[k]; ok {
+				return true
+			}
+			seen[k] = struct{}{}
+			return false
+		}
+		out := exec(rc, cfg)
+		res := out.Res
+		if rc.bad != "" || res.Verdict == mcrt.VHarness {
+			st.Nondet = fmt.Sprintf("prefix %v: %s %s", prefix, rc.bad, res.Msg)
+			stop = true
+			return
+		}
+		st.Execs++
+		st.Steps += int64(res.Steps)
+		st.Points += int64(res.Points)
+		st.ChoicePoints += int64(len(res.Choices))
+		if len(res.Choices) > st.MaxChoices {
+			st.MaxChoices = len(res.Choices)
+		}
+		if res.Verdict == mcrt.VPruned {
+			st.Pruned++
+		} else {
+			st.Distinct[out.Obs]++
+			if out.Violation != "" {
+				ch := make([]int, len(res.Choices))
+				for i, c := range res.Choices {
+					ch[i] = c.Idx
+				}
+				for len(ch) > 0 && ch[len(ch)-1] == 0 {
+					ch = ch[:len(ch)-1]
+				}
+				st.Found = append(st.Found, Found{Choices: ch, Strategy: opt.Strategy, Outcome: out})
+				if opt.StopOnViol {
+					stop = true
+					return
+				}
+			}
+		}
+		ns := make([]int, len(res.Choices))
+		for i, c := range res.Choices {
+			ns[i] = c.N
+		}
+		for i := len(res.Choices) - 1; i >= len(prefix); i-- {
+			for alt := 1; alt < res.Choices[i].N; alt++ {
+				np := make([]int, i+1)
+				for j := 0; j < i; j++ {
+					np[j] = res.Choices[j].Idx
+				}
+				np[i] = alt
+				rec(np, ns[:i+1])
+				if stop {
+					return
+				}
+			}
+		}
+	}
+	rec(nil, nil)
+	st.StatesSeen = len(seen)
+	st.ByDev[0] = st.Execs
+	return st
+}
